@@ -1,4 +1,5 @@
 import Driver.Cache
+import Driver.TI
 
 open Osu.Driver
 
@@ -10,6 +11,7 @@ def handle (st : DState) (line : String) : DState × String :=
   | "cache" :: rest =>
     let (c, out) := Cache.step st.cache rest
     ({ st with cache := c }, out)
+  | "ti" :: rest => (st, TI.step rest)
   | _ => (st, "bad-op")
 
 partial def loop (h : IO.FS.Stream) (out : IO.FS.Stream) (st : DState) : IO Unit := do
